@@ -1131,8 +1131,12 @@ class Interp:
             else:
                 d = d_nl(d_add(b.deg, join(args).deg if args else None))
             car = "bare" if n in ("to_numpy", "tolist", "item") else b.carrier
-            v = V("raw", deps=b.deps | alld, deg=d, shares=b.shares if n not in ("copy", "shift", "cumsum", "add",
-                                                                                  "mul", "abs") else F(),
+            # a copy asked for explicitly — x.to_numpy(copy=True), x.astype(float, copy=True), x.copy() — is a new buffer;
+            # without it numpy / pandas may hand back a view of the receiver's own data
+            explicit_copy = n in ("to_numpy", "astype", "array") and any(
+                k.arg == "copy" and isinstance(k.value, ast.Constant) and k.value.value is True for k in e.keywords)
+            v = V("raw", deps=b.deps | alld, deg=d,
+                  shares=b.shares if (n not in ("copy", "shift", "cumsum", "add", "mul", "abs") and not explicit_copy) else F(),
                   carrier=car, recv=b.recv)
             return self.taintdeg(v, cx)
         if b.k == "rec":
